@@ -230,6 +230,10 @@ def gen_targets(r, model, absent_ok=True):
             if pre not in names and n[cut] != "/" and not pre.endswith("/"):
                 cands += [pre, pre]
         ts.append(r.pick(cands))
+    # a directory that exists only as the prefix of member names (no entry of its own): with recursive it selects what lies beneath
+    implicit = sorted({n.rsplit("/", 1)[0] for n in names if "/" in n} - set(names))
+    if implicit and r.chance(0.25):
+        ts.append(r.pick(implicit))
     ts = [t + "/" if r.chance(0.2) else t for t in ts]
     if absent_ok and r.chance(0.06):
         ts = []  # the empty subset: nothing is selected, nothing may be created
